@@ -16,14 +16,18 @@ static int ef (hash_table_entry_t a, hash_table_entry_t b) { return a == b; }
 #include "alloc_model.h"
 
 static int slot_of (hash_table_t h, int k) { size_t s; for (s = 0; s < SIZE; s++) if (h->entries[s] == KEY (k)) return (int) s; return -1; }
-/* well-formedness: counters describe the slots; no key twice; a present key is reached by its own probe sequence before an EMPTY slot */
+/* well-formedness: counters bound the slots and their difference counts the live elements; no key twice; a present key is reached by its own probe sequence before an EMPTY slot */
 static _Bool ht_wf (hash_table_t h)
 {
   size_t s, live = 0, del = 0; int k;
   if (h->size != SIZE) return 0;
   for (s = 0; s < SIZE; s++)
     { hash_table_entry_t e = h->entries[s]; if (e == DELETED_ENTRY) del++; else if (e != EMPTY_ENTRY) { if ((size_t) e < 2 || (size_t) e >= 2 + NKEYS) return 0; live++; } }
-  if (h->number_of_elements != live + del || h->number_of_deleted_elements != del || h->number_of_elements >= SIZE) return 0;
+  /* counters: number_of_elements counts reservations ever made since the last (re)build, number_of_deleted_elements removals; a
+     reservation that re-uses a deleted slot increments the first and leaves the second, so the two are upper bounds on the slots,
+     and their difference is exactly the number of live elements */
+  if (h->number_of_elements < h->number_of_deleted_elements || h->number_of_elements - h->number_of_deleted_elements != live
+      || live + del > h->number_of_elements || h->number_of_elements >= SIZE) return 0;
   for (k = 0; k < NKEYS; k++)
     {
       size_t cnt = 0, pos, step, i; _Bool seen_empty = 0, found = 0;
@@ -86,5 +90,18 @@ void h_abs_empty (void)
   __CPROVER_assert (ht_wf (h), "well formed after emptying");
   HAVOC (j); __CPROVER_assume (j >= 0 && j < NKEYS);
   __CPROVER_assert (slot_of (h, j) < 0 && hash_table_elements_number (h) == 0, "no element is left");
+  VACUITY_CANARY ();
+}
+/* growth: rebuilding into a larger table keeps exactly the live elements, drops the deleted marks, leaves room below the threshold */
+void h_abs_expand (void)
+{
+  hash_table_t h = arbitrary_table (); int j; size_t live0;
+  snapshot (h); live0 = h->number_of_elements - h->number_of_deleted_elements;
+  expand_hash_table (h);
+  __CPROVER_assert (h->size > 2 * live0 && h->size % 2 == 1 && h->number_of_deleted_elements == 0 && h->number_of_elements == live0, "new table: odd size above twice the live count, no deleted marks, counters rebuilt");
+  __CPROVER_assert (h->size / 4 > h->number_of_elements / 3, "after growth the table is below the growth threshold again");
+  HAVOC (j); __CPROVER_assume (j >= 0 && j < NKEYS);
+  { size_t s; _Bool there = 0; for (s = 0; s < h->size && s < 32; s++) if (h->entries[s] == KEY (j)) there = 1;
+    __CPROVER_assert (there == present0[j], "abstract set: growth keeps exactly the elements that were in the table"); }
   VACUITY_CANARY ();
 }
